@@ -131,12 +131,13 @@ pub fn format_error(file_name: &str, source: &str, error: &CompileError) -> Stri
     ));
 
     // Caret pointing to error
-    let underline_len = if error.span.end > error.span.start && col_num > 0 {
-        let start_offset = error.span.start.saturating_sub(col_num.saturating_sub(1));
-        let end_in_line = error.span.end.saturating_sub(start_offset);
-        end_in_line
-            .min(line_text.len())
-            .saturating_sub(col_num.saturating_sub(1))
+    // One caret per character of the span that lies on this line (columns are counted in characters).
+    let underline_len = if error.span.end > error.span.start {
+        let line_start = line_text.as_ptr() as usize - source.as_ptr() as usize;
+        line_text
+            .char_indices()
+            .filter(|(i, _)| (error.span.start..error.span.end).contains(&(line_start + i)))
+            .count()
             .max(1)
     } else {
         1
@@ -190,7 +191,12 @@ fn get_line_info(source: &str, offset: usize) -> (usize, usize, &str) {
         .unwrap_or(source.len());
 
     let line_text = &source[line_start..line_end];
-    let col_num = offset - line_start + 1;
+    // 1-based column in characters: the characters of the line that start before the offset.
+    let col_num = line_text
+        .char_indices()
+        .take_while(|(i, _)| line_start + i < offset)
+        .count()
+        + 1;
 
     (line_num, col_num, line_text)
 }
